@@ -68,7 +68,8 @@ def posting_meta_indents(pindent: str, tier: str) -> list[str]:
 
 def meta_lines(n: int, ind: str, cmt: str) -> list[str]:
     if n == 0:
-        return []
+        # 'only': the indented block holds nothing but a standalone comment (no sibling ITEM: the default rule applies)
+        return [ind + '; ' + OLD_COMMENT] if cmt == 'only' else []
     out = [ind + 'aa: 1']
     if n == 2:
         if cmt == 'between':
@@ -272,12 +273,11 @@ def apply_step(ctx: Ctx, step: dict, no: int) -> bool:
                         f'keys under the parent afterwards: {[it.key for it in parent.raw_meta]}')
         created = items[0]
         if not sib_items:
+            # no sibling item (standalone comments are not items): parent indent + indent_by
+            expected = parent_indent(ctx) + parent.indent_by
+            clause = f'C18/created-item-indent-is-not-parent-indent-plus-indent_by[{where}]'
             if n_all:
-                judged = False
-                res.outcomes['not judged: list holds standalone comments only'] += 1
-            else:
-                expected = parent_indent(ctx) + parent.indent_by
-                clause = f'C18/created-item-indent-is-not-parent-indent-plus-indent_by[{where}]'
+                res.outcomes['judged: list held standalone comments only'] += 1
         elif len(set(sib_indents)) > 1:
             judged = False
             got = created.indent
@@ -586,6 +586,9 @@ def layouts(parent: str, tier: str) -> list[tuple]:
     posts = (False, True) if parent == 'transaction' else (False,)
     for post in posts:
         out.append((None, 0, '', 'no', post))
+        if not post:
+            out.append((None, 0, '      ', 'only', post))
+            out.append((None, 0, '\t', 'only', post))
         for ind in ENTRY_META_INDENTS:
             for n, cmts in ((1, ('no', 'after')), (2, ('no', 'between', 'after'))):
                 for cmt in cmts:
